@@ -316,10 +316,11 @@ class Gen:
         r = self.r
         obs = [("index_valid",), ("iter",)]
         k = r.choice(["ooo_batch", "carriers", "bad_batch", "stale_handle", "torn_update", "handle_times", "linebreaks", "zones",
-                      "remove_first", "ooo_then_remove", "nested_not", "reset_then_time", "getter_memo", "handle_sorted", "odd_strings", "shared_maps", "hash_twins", "same_count", "redate"])
+                      "remove_first", "ooo_then_remove", "nested_not", "reset_then_time", "getter_memo", "handle_sorted", "odd_strings", "shared_maps", "hash_twins", "same_count", "redate", "fold_twins", "big_ties"])
         pref = self.profile.get("scenario_pref")
         if pref and r.random() < 0.5:
             k = r.choice(pref)
+        k = self.profile.get("scenario_force") or k
         ops = []
         if k == "ooo_batch":
             # one insert_multiple whose points go backwards inside the batch, then time queries straight away
@@ -473,6 +474,46 @@ class Gen:
             for p in pts:
                 p["tags"]["nl"] = r.choice(["a\nb", "c\r\nd", "e\rf"])
             ops += [("insert", pts, None, "multiple"), ("insert", [self.point(T0 - 9 * SEC)], None)] + obs + [("len",), ("all", False), ("len",)]
+        elif k == "big_ties":
+            # a dozen points, several sharing an instant; sparse answers whose storage positions go beyond 8: order among equal instants is
+            # insertion order (sorted reads), storage order otherwise
+            n = r.choice([10, 12, 14])
+            pts = []
+            for i in range(n):
+                p = self.point(T0 + (i // 3) * SEC)
+                p["tags"]["pos"], p["tags"]["grp"], p["fields"]["i"] = str(i), "abc"[i % 3], i
+                pts.append(p)
+            ops += [("insert", pts, None, "multiple")] + obs
+            for _ in range(5):
+                q = r.choice([("S", "tags", [("k", "grp")], ("cmp", "==", ("s", r.choice("abc")))),
+                              ("or", ("S", "fields", [("k", "i")], ("cmp", "==", ("n", 1))), ("S", "fields", [("k", "i")], ("cmp", ">=", ("n", n - 3)))),
+                              ("S", "fields", [("k", "i")], ("cmp", ">", ("n", r.choice([5, 7, 8])))),
+                              # two or three positions, one of them 8 or more: among them pairs that share an instant (6, 7, 8 do)
+                              ("or", ("S", "fields", [("k", "i")], ("cmp", "==", ("n", r.choice([6, 7])))), ("S", "fields", [("k", "i")], ("cmp", "==", ("n", 8)))),
+                              ("or", ("S", "fields", [("k", "i")], ("cmp", "==", ("n", r.choice([1, 2, 3, 5])))), ("S", "fields", [("k", "i")], ("cmp", "==", ("n", r.choice([8, 9]))))),
+                              ("or", ("S", "tags", [("k", "pos")], ("cmp", "==", ("s", "7"))), ("or", ("S", "tags", [("k", "pos")], ("cmp", "==", ("s", "8"))),
+                                                                                                 ("S", "tags", [("k", "pos")], ("cmp", "==", ("s", "3")))))])
+                ops.append(r.choice([("search", q, None, True), ("search", q, None, False), ("select", ["tags.pos", "time"], q, None),
+                                     ("handle", r.choice(MEAS), ("search", q, True)), ("get", q, None)]))
+        elif k == "fold_twins":
+            # comparison values that are EQUAL as datetimes of their zone but different instants (the two readings of a repeated hour), asked
+            # one right after the other; points stored at both instants
+            import dbmodel as _M
+            a, b = r.choice(_M.FOLD_PAIRS)
+            pts = self.points_batch(r.choice([3, 4]), in_order=True)
+            extra = [self.point(a), self.point(b), self.point(a + 1), self.point(b - 1)]
+            allp = sorted(pts + extra, key=lambda p: p["time"]) if r.random() < 0.7 else pts + extra
+            ops += [("insert", allp, None, "multiple")] + obs
+            tq = lambda c, v: ("S", "time", [], ("cmp", c, ("t", v)))
+            for c in r.sample(["==", "!=", "<", "<=", ">", ">="], 3):
+                first, second = (a, b) if r.random() < 0.5 else (b, a)
+                kind = r.choice(["count", "search", "select"])
+                for v in (first, second):
+                    ops.append(("count", tq(c, v), None) if kind == "count" else ("search", tq(c, v), None, r.random() < 0.5) if kind == "search"
+                               else ("select", ["time"], tq(c, v), None))
+            ops += [("count", ("or", tq("==", a), tq("==", b)), None), ("count", ("and", tq(">=", a), tq("<", b)), None),
+                    ("search", ("or", ("not", tq("<=", a)), tq("<=", b)), None, True)]
+            ops += [("remove", tq("==", r.choice([a, b])), None)] + obs + [("count", tq("==", a), None), ("count", tq("==", b), None), ("get_timestamps", None)]
         elif k == "redate":
             # every insert arrives in time order; then update() moves one point in time (past the newest / before the oldest): sorted reads must
             # follow the new times although nothing was ever inserted out of order
